@@ -26,7 +26,7 @@ RULE = ("formats: region tables of 1..200 rows (chromosome names over letters/di
 ASSUMPTIONS = [
     "the order among non-canonical contigs is not asserted (the statement is silent); canonical ones (digits, X, Y, M) must be in natural order, every chromosome contiguous and sorted by start then end",
     "auto-detection is only driven with names of letters, digits and underscores (as the statement says) and not with BED5 lines whose name is one of . + -",
-    "gene labels avoid the strings pandas parses as missing (NA, nan, null, ...), quotes, tabs and '@' (interval-list comment character)",
+    "gene labels avoid quotes, tabs and '@' (interval-list comment character); they do include numeric-looking IDs and the words a parser may take for 'missing' (NA, null, None, nan, N/A)",
     "for VCF the SNV end is asserted for the pysam-backed reader ('vcf'); the simple readers are judged on start and on END-tagged records",
     "text format carries coordinates only; BED carries coordinates and name",
 ]
@@ -59,11 +59,14 @@ def _rows(rng, dots=False, n=None):
     names = _chrom_names(rng, dots)
     n = n or int(rng.choice([1, 2, 3, 10, 50, 200]))
     rows = []
+    r0 = rng.random()
+    # names are text: a table of numeric probe IDs (every label looks like a number), or labels among which are the words a parser may take for "missing"
+    pool = ["007", "12", "1e5", "3.50", "0012"] if r0 < 0.12 else GENES + ["NA", "null", "None", "nan", "N/A", "NULL"] if r0 < 0.27 else GENES
     for _ in range(n):
         c = str(rng.choice(names))
         s = int(rng.choice([0, 1, 9, 10, 99, 100, 999, 1000, int(rng.integers(0, 3 * 10**8))]))
         e = s + int(rng.choice([1, 2, 10, 100, int(rng.integers(1, 10**6))]))
-        rows.append((c, s, e, str(rng.choice(GENES))))
+        rows.append((c, s, e, str(rng.choice(pool))))
     if n > 2 and rng.random() < 0.4:
         rows.append(rows[0])                      # duplicate row
         rows.append((rows[1][0], rows[1][1], rows[1][2] + 5, rows[1][3]))   # same start, different end
